@@ -11,8 +11,13 @@ from ..ruleprops import violation
 RULE = ("seeded elections x pairs/triples of rules drawn from {greedy x measure, Equal Shares x measure, Phragmen, welfare maximiser} (repeats "
         "allowed, so identical outcomes occur) x comparison measure in all shipped measures of the ballot type x Profile/MultiProfile; "
         "predicate = both arg-max sets recomputed with independent satisfaction arithmetic on the rules' own outcomes; diffed with the "
-        "Lean comparison model; non-trivial = at least 2 distinct outcomes compared")
-ASSUMPTIONS = ["outcomes are de-duplicated by list equality as the library does; verdicts compared as lists of sets"]
+        "Lean comparison model; non-trivial = at least 2 distinct outcomes compared.  Every compared rule accepts an initial budget "
+        "allocation, so the comparison is also given one (None / empty / a non-empty feasible set, as list or BudgetAllocation; the "
+        "expected verdict is computed on the rules' FULL outcomes, initial projects included).  Histories: (a) one long-lived profile "
+        "edited in place between two comparisons; (b) one caller-owned rule_sequence / rule_params pair reused for 2-4 comparisons "
+        "that differ in kind, comparison measure and initial allocation, each judged against the definition on its own arguments "
+        "(the expected outcomes are computed with fresh parameter dictionaries)")
+ASSUMPTIONS = ["outcomes are allocations (sets of projects): de-duplicated and compared as sets"]
 
 
 def rule_callable(spec, case, built, tie):
@@ -54,26 +59,75 @@ def gen(ctx):
     cmp_sat = rng.choice(add + [s for s in core.SAT_NONADD[bt] if s == "CC_Sat"])
     cfg = {"kind": rng.choice(["welfare", "popularity"]), "rules": seq, "sat": cmp_sat, "multi": rng.random() < 0.5,
            "tie": rng.choice(["lexico", "min_cost", "max_cost"])}
+    cfg.update(gen_init_cfg(rng, case))
     return case, cfg
 
 
-def check(case, cfg):
-    import pabutools.rules as R
+def gen_init_cfg(rng, case, p_none=0.35):
+    """the initial allocation handed to the comparison (every compared rule accepts one): not given / empty / a non-empty
+    feasible set of projects, as a plain list or as a BudgetAllocation"""
+    u = rng.random()
+    if u < p_none:
+        return {"init": None}
+    init = []
+    if u >= p_none + 0.1:
+        init = core.gen_init(rng, case)
+        if not init:
+            # a non-empty feasible set: cheapest-first prefix of a random order
+            names = [n for n, _ in case.projects]
+            rng.shuffle(names)
+            tot = F(0)
+            for n in names:
+                if tot + case.cost[n] <= case.budget and (not init or rng.random() < 0.4):
+                    init.append(n)
+                    tot += case.cost[n]
+    return {"init": init, "init_form": rng.choice(["list", "alloc"])}
 
-    built = rules.Built(case, multi=cfg["multi"])
+
+def build_rules(case, cfg, built):
+    """fresh rule_sequence / rule_params objects for the configuration"""
     tie = core.tie_rule(cfg["tie"], case, built.projs)
     fs, ps = [], []
     for spec in cfg["rules"]:
         f, kw = rule_callable(spec, case, built, tie)
         fs.append(f)
         ps.append(kw)
+    return fs, ps
+
+
+def init_arg(cfg, built):
+    """the caller's initial allocation object for cfg (None = argument left out)"""
+    if cfg.get("init") is None:
+        return None
+    init = [built.projs[n] for n in cfg["init"]]
+    if cfg.get("init_form") == "alloc":
+        from pabutools.rules import BudgetAllocation
+
+        return BudgetAllocation(init)
+    return init
+
+
+def judge(case, cfg, built, fs, ps):
+    """one comparison call with the caller's objects (fs, ps may be shared with earlier calls), judged against the
+    definition evaluated on THIS call's arguments: the outcomes of the rules are recomputed with fresh parameter
+    dictionaries and a fresh copy of the initial allocation"""
+    import pabutools.rules as R
+
     sig = {"kind": cfg["kind"], "sat": cfg["sat"]}
+    if cfg.get("init"):
+        sig["init"] = True
     fn = R.social_welfare_comparison if cfg["kind"] == "welfare" else R.popularity_comparison
+    init = init_arg(cfg, built)
     try:
-        out = fn(built.inst, built.prof, core.sat_class(cfg["sat"]), fs, ps)
-        singles = [f(built.inst, built.prof, **kw) for f, kw in zip(fs, ps)]
+        if init is None:
+            out = fn(built.inst, built.prof, core.sat_class(cfg["sat"]), fs, ps)
+        else:
+            out = fn(built.inst, built.prof, core.sat_class(cfg["sat"]), fs, ps, initial_budget_allocation=init)
+        fs2, ps2 = build_rules(case, cfg, built)
+        ikw = {} if cfg.get("init") is None else {"initial_budget_allocation": [built.projs[n] for n in cfg["init"]]}
+        singles = [f(built.inst, built.prof, **ikw, **kw) for f, kw in zip(fs2, ps2)]
     except Exception as e:  # noqa: BLE001
-        return built, None, None, [violation(f"comparison raised {e!r}", case, cfg, sig=dict(sig, err=core.err_enum(e)))]
+        return None, None, [violation(f"comparison raised {e!r}", case, cfg, sig=dict(sig, err=core.err_enum(e)))]
     vs = []
     got = [[case.rank[p.name] for p in o] for o in out]
     outcomes = [[case.rank[p.name] for p in o] for o in singles]
@@ -91,6 +145,7 @@ def check(case, cfg):
     def sat_v(b, ids):
         return oracle.sat_set(cfg["sat"], case, b, [names[i] for i in ids])
 
+    # the satisfaction of a voter with an outcome is her satisfaction with the whole allocation (initial projects included)
     if cfg["kind"] == "welfare":
         w = [sum((sat_v(b, o) for b in case.ballots), F(0)) for o in distinct]
         mx = max(w)
@@ -107,42 +162,146 @@ def check(case, cfg):
         exp = [o for o, x in zip(distinct, sup) if x == mx]
     if sorted(map(sorted, got)) != sorted(map(sorted, exp)) or len(got) != len(exp):
         vs.append(violation("comparison does not return exactly the best distinct outcomes", case, cfg, impl=got, expected=exp, sig=dict(sig, clause="argmax")))
+    return got, outcomes, vs
+
+
+def check(case, cfg):
+    built = rules.Built(case, multi=cfg["multi"])
+    fs, ps = build_rules(case, cfg, built)
+    got, outcomes, vs = judge(case, cfg, built, fs, ps)
     return built, got, outcomes, vs
+
+
+def model_line(case, cfg, built, outcomes):
+    rtok = "|".join(".".join(str(i) for i in sorted(o)) for o in outcomes)
+    stok = rules.sat_tokens(built, {"sat": cfg["sat"]}, need_setfn=True)
+    return f"compose kind={cfg['kind']} {case.enc_common(built.entries(), built.enum())} R={rtok} {stok}"
 
 
 def run(ctx, n=None, compare=True):
     ctx.rule = RULE
     n = n or ctx.scale(4000, 20000)
     lines, info = [], []
+
+    def one(case, cfg, stream):
+        built, got, outcomes, vs = check(case, cfg)
+        ctx.evaluations += 1
+        ctx.count("stream", stream)
+        ctx.count("kind", cfg["kind"])
+        ctx.count("cmp_sat", cfg["sat"])
+        ctx.count("multi", str(cfg["multi"]))
+        ctx.count("initial_allocation", init_label(cfg))
+        ctx.violations.extend(vs)
+        if outcomes is not None:
+            nd = len({tuple(sorted(o)) for o in outcomes})
+            ctx.count("distinct_outcomes", str(nd))
+            if nd >= 2:
+                ctx.nontrivial.add(case.key() + json.dumps(cfg, sort_keys=True))
+                if cfg.get("init"):
+                    ctx.count("nonempty_init_distinct_outcomes", cfg["sat"])
+            if compare:
+                lines.append(model_line(case, cfg, built, outcomes))
+                info.append(("ok " + "|".join(",".join(str(i) for i in sorted(o)) for o in got), case, cfg))
+
     for _ in range(n):
         if ctx.budget_s is not None and ctx.elapsed() > ctx.budget_s:
             break
         case, cfg = gen(ctx)
-        built, got, outcomes, vs = check(case, cfg)
-        ctx.evaluations += 1
-        ctx.count("kind", cfg["kind"])
-        ctx.count("cmp_sat", cfg["sat"])
-        ctx.count("multi", str(cfg["multi"]))
-        ctx.violations.extend(vs)
-        if outcomes is not None:
-            nd = len({tuple(o) for o in outcomes})
-            ctx.count("distinct_outcomes", str(nd))
-            if nd >= 2:
-                ctx.nontrivial.add(case.key() + json.dumps(cfg, sort_keys=True))
-            if compare:
-                rtok = "|".join(".".join(str(i) for i in sorted(o)) for o in outcomes)
-                c2 = {"sat": cfg["sat"]}
-                stok = rules.sat_tokens(built, c2, need_setfn=True)
-                line = f"compose kind={cfg['kind']} {case.enc_common(built.entries(), built.enum())} R={rtok} {stok}"
-                lines.append(line)
-                info.append(("ok " + "|".join(",".join(str(i) for i in sorted(o)) for o in got), case, cfg))
+        one(case, cfg, "main")
+    # set-function measures x non-empty initial allocation: a voter already served by an initial project is indifferent
+    # between outcomes that an additive measure would separate (the popularity count sees it, the totals see it too)
+    for _ in range(n // 2 if compare else n // 4):
+        if ctx.budget_s is not None and ctx.elapsed() > ctx.budget_s:
+            break
+        case, cfg = gen_init_setfn(ctx)
+        one(case, cfg, "init_setfn")
     history_stream(ctx, ctx.scale(400, 3000))
+    reuse_stream(ctx, ctx.scale(1200, 8000), lines if compare else None, info)
     if compare and lines:
         res = core.run_driver(lines)
         for line, o, (impl_s, case, cfg) in zip(lines, res, info):
             if o.strip() != impl_s.strip():
                 ctx.disagreements.append({"line": line, "impl": impl_s, "model": o.strip(), "case": case.to_json(), "cfg": cfg})
             ctx.sample(f"{line} -> impl: {impl_s} | model: {o.strip()}", cap=5)
+
+
+def init_label(cfg):
+    if cfg.get("init") is None:
+        return "not given"
+    return ("non-empty " if cfg["init"] else "empty ") + cfg.get("init_form", "list")
+
+
+def cmp_sats(bt):
+    return list(core.SAT_BY_TYPE[bt]) + [s for s in core.SAT_NONADD[bt] if s == "CC_Sat"]
+
+
+def gen_init_setfn(ctx):
+    """approval / cardinal elections with overlapping ballots, a NON-EMPTY initial allocation that some voters approve,
+    compared with the (non-additive) Chamberlin-Courant measure"""
+    rng = ctx.rng
+    for _ in range(50):
+        case, cfg = gen(ctx)
+        if case.btype == "ord" or len(case.projects) < 3:
+            continue
+        c2 = gen_init_cfg(rng, case, p_none=0.0)
+        if not c2["init"]:
+            continue
+        cfg.update(c2)
+        cfg["sat"] = "CC_Sat"
+        return case, cfg
+    return case, cfg
+
+
+def reuse_stream(ctx, n, lines, info):
+    """one caller-owned rule_sequence / rule_params pair (and one instance / profile) reused for several comparisons that
+    differ in kind, comparison measure and initial allocation"""
+    rng = ctx.rng
+    for _ in range(n):
+        if ctx.budget_s is not None and ctx.elapsed() > ctx.budget_s:
+            break
+        case, cfg = gen(ctx)
+        steps = []
+        for _j in range(rng.choice([2, 2, 3, 4])):
+            st = {"kind": rng.choice(["welfare", "popularity"]), "sat": rng.choice(cmp_sats(case.btype))}
+            st.update(gen_init_cfg(rng, case, p_none=0.4))
+            steps.append(st)
+        if all((st.get("init") or []) == (steps[0].get("init") or []) for st in steps) and case.projects:
+            # at least two different initial allocations in the history
+            steps[rng.randrange(len(steps))].update(gen_init_cfg(rng, case, p_none=0.0) if not steps[0].get("init") else {"init": None})
+        cfg = dict({k: v for k, v in cfg.items() if k not in ("kind", "sat", "init", "init_form")}, steps=steps)
+        vs, trace = run_reuse(case, cfg)
+        ctx.evaluations += len(trace)
+        ctx.count("stream", "reuse_history", len(trace))
+        ctx.count("reuse_history_length", str(len(steps)))
+        for c_j, built, got, outcomes in trace:
+            ctx.count("reuse_history_init", init_label(c_j))
+            if lines is not None and outcomes is not None:
+                lines.append(model_line(case, c_j, built, outcomes))
+                info.append(("ok " + "|".join(",".join(str(i) for i in sorted(o)) for o in got), case, c_j))
+        if len({tuple(map(tuple, t[3])) for t in trace if t[3] is not None}) >= 2:
+            ctx.count("reuse_history_outcomes_differ_between_calls")
+        ctx.violations.extend(vs)
+
+
+def run_reuse(case, cfg):
+    """cfg["steps"]: the calls of the history; returns (violations, trace)"""
+    built = rules.Built(case, multi=cfg["multi"])
+    fs, ps = build_rules(case, cfg, built)
+    base = {k: v for k, v in cfg.items() if k not in ("steps", "failing_step")}
+    trace = []
+    for j, st in enumerate(cfg["steps"]):
+        c_j = dict(base, **st)
+        got, outcomes, vs = judge(case, c_j, built, fs, ps)
+        trace.append((c_j, built, got, outcomes))
+        if vs:
+            out = []
+            for v in vs[:1]:
+                v = dict(v, cfg=ruleprops.cfg_json(dict(cfg, failing_step=j)))
+                v["what"] = f"call {j + 1} of a history reusing the caller's rule_sequence / rule_params objects: " + v["what"]
+                v["sig"] = dict(v["sig"], history="reuse")
+                out.append(v)
+            return out, trace
+    return [], trace
 
 
 def history_stream(ctx, n):
@@ -194,6 +353,11 @@ def search(ctx, disagreements):
 
 def replay(payload):
     case = Case.from_json(payload["case"])
+    if payload["cfg"].get("steps"):
+        vs, _ = run_reuse(case, payload["cfg"])
+        if vs:
+            return False, "still fails: " + vs[0]["what"]
+        return True, "property holds on every call of the replayed history"
     built, got, outcomes, vs = check(case, payload["cfg"])
     if vs:
         return False, "still fails: " + vs[0]["what"]
